@@ -45,6 +45,11 @@ CLAIMED = {
             "View events log num_bins, bin_entries, bin_edges, bin_centers, bin_width and bin_entries(xvalues) for full-range "
             "and sub-range queries; TLC compares them with the partition that Fill/Route use (HgViews!ViewExpect) and checks "
             "mutual consistency; Categorize labels/entries/mpv and the 2-D grid and x/y projections likewise."),
+    "C14": ("trace validation of make_histograms against MakeHist = fold of Fill over the rows (TLC, HgFrame)",
+            "MH events record make_histograms on frames with float(NaN)/int/bool/timestamp columns in unit, auto, explicit-spec "
+            "and time_axis modes; TLC derives the primitive tree from the RETURNED bin specs (HgFrame!TreeOf) and requires the "
+            "content to equal the fold of Fill over the rows, entries = rows, the frame unchanged, and chunks re-binned with "
+            "the returned specs to add up to the whole (ghost multiset)."),
     "C15": ("TLC-enumerated single-point mutations of real documents, judged by the three-valued Parse (TLC)",
             "HgDoc!MutIds enumerates every single-point structural mutation (delete/add key, retype, rename type, drop "
             "list element, version) of documents produced by toJson; each mutant is fed to Factory.fromJson and TLC "
